@@ -752,6 +752,8 @@ class Evaluator:
             return x[1]
         if tag(x) == "rangenext" and vn == "Some" and i == 0:
             return x[1]
+        if tag(x) == "nonzero" and vn == "Some" and i == 0:
+            return x[1]
         if tag(x) == "variant" and x[2] == vn and isinstance(i, int) and i < len(x[3]):
             return x[3][i]
         if tag(x) == "call" and x[1].endswith("checked_sub") and vn == "Some" and i == 0:
@@ -1464,6 +1466,17 @@ class Evaluator:
             if tag(x) == "payloads" and len(x[1]) == 1 and tag(x[1][0]) == "variant" and x[1][0][2] in ("Err", "None"):
                 return ("variant", x[1][0][1], x[1][0][2], x[1][0][3])
             return ("residual", x)
+        if re.search(r"num::(nonzero::)?NonZero::<.*>::new$", c) and len(args) == 1:
+            # NonZero::new(x): Some(x) iff x != 0; the wrapper is transparent (payload and .get() are x itself)
+            return ("nonzero", args[0])
+        if re.search(r"num::(nonzero::)?NonZero::<.*>::get$", c) and len(args) == 1:
+            return args[0]
+        if re.search(r"ops::(control_flow::)?ControlFlow::<.*>::(is_continue|is_break)$", c) and len(args) == 1:
+            x = self._deref_val(args[0])
+            want = "Continue" if short == "is_continue" else "Break"
+            if tag(x) == "variant":
+                return const(int(x[2] == want))
+            return ("variant-is", x, want)
         if re.search(r"(Result|Option)::<.*>::(is_ok|is_err|is_some|is_none)$", c):
             x = self._deref_val(args[0])
             if tag(x) == "variant":
@@ -2122,6 +2135,12 @@ def implied_facts(guards):
                           frozenset(["Lt", "Gt"]): "Ne"}.get(frozenset(left))
                 if op is not None:
                     facts |= implied_facts([(("cmp", op, a_, b_), ("eq", 1))])
+            if tag(x) == "nonzero":
+                facts.discard(("discr", cond[1], rel))      # the test says exactly `x != 0` / `x == 0`: one spelling for both ways of writing it
+                if rel in (("eq", 1), ("ne", (0,))):
+                    facts |= implied_facts([(("cmp", "Ne", x[1], const(0)), ("eq", 1))])
+                elif rel in (("eq", 0), ("ne", (1,))):
+                    facts |= implied_facts([(("cmp", "Eq", x[1], const(0)), ("eq", 1))])
             if tag(x) == "filter" and rel in (("eq", 1), ("ne", (0,))):
                 # Some(..) came out of the filter: the receiver was Some and the predicate held
                 facts |= implied_facts([(("discr", x[1]), ("eq", 1)), (x[2], ("eq", 1))])
@@ -2135,12 +2154,13 @@ def implied_facts(guards):
                     facts.add(("cmp", "Gt", x[2][1], x[2][0]))
         elif t == "is" and truth is not None:
             facts.add(("is", cond[1], cond[2], truth))
-        elif t == "variant-is" and truth:
+        elif t == "variant-is" and truth is not None:
             idx = {"Ok": 0, "Err": 1, "None": 0, "Some": 1, "Continue": 0, "Break": 1}.get(cond[2])
             if idx is not None:
-                facts.add(("discr", cond[1], ("eq", idx)))     # the same fact a `match` on the value gives
+                # the same fact a `match` on the value gives (these enums have two variants: not this one = the other one)
+                facts |= implied_facts([(("discr", cond[1]), ("eq", idx if truth else 1 - idx))])
             else:
-                facts.add(("bool", cond, True))
+                facts.add(("bool", cond, truth))
         elif isinstance(cond, Lin) and rel[0] in ("eq", "ne") and not (t in ("cmp", "not", "is", "booland", "boolor")):
             # a `match` on an integer value (`Ok(0) => ..`): the tested value equals / differs from the pattern constants
             if rel[0] == "eq":
